@@ -157,6 +157,22 @@ func main() {
 		}
 	case "manifest":
 		writeManifest()
+	case "runs-json":
+		// property -> scenario names its check runs (any tier); used by lint_keys.py
+		out := map[string][]string{}
+		for _, c := range allChecks() {
+			seen := map[string]bool{}
+			for _, tier := range []string{"quick", "thorough"} {
+				for _, r := range c.Runs(tier) {
+					if !seen[r.Scenario] {
+						seen[r.Scenario] = true
+						out[c.ID] = append(out[c.ID], r.Scenario)
+					}
+				}
+			}
+		}
+		b, _ := json.Marshal(out)
+		fmt.Println(string(b))
 	case "list":
 		for _, c := range allChecks() {
 			fmt.Println(c.ID, c.Title)
